@@ -891,9 +891,10 @@ SPECS["C02"] = {
                 "some settle; distinct = distinct script text",
     }],
     "trusted_base": COMMON_TB + CLIENT_TB + [
-        "wake-driven harness (harness/src/cli.rs `settle`): per-task wake flags; every change of the scripted transport's "
-        "state force-wakes the dispatch (the transport's own waking is not under test); tarpc's own wake sources "
-        "(request queue, cancel queue, oneshots, DelayQueue timers, semaphore permits) are never forced",
+        "wake-driven harness (harness/src/cli.rs `settle`): per-task wake flags; the scripted transport wakes whoever its "
+        "last Pending answer registered (read / ready / flush / close); only arming a fault force-wakes the dispatch; "
+        "tarpc's own wake sources (request queue, cancel queue, oneshots, DelayQueue timers, semaphore permits) are never "
+        "forced",
     ],
     "level_text": "PARTIAL by nature. Proved about the model driven to quiescence (poll everything until nothing changes): "
                   "C02_dead_resolved (after the dispatch failed or was dropped no call is left unresolved), "
